@@ -31,6 +31,8 @@
      "dispReread"      the dispatcher tests self.cf.link and then reads it again to use it
      "closeReread"     close_link tests self.link and reads it again for .close()
      "errReread"       _link_error_cb tests self.link and reads it again for .close()
+     "updDoubleRelease" _ParamUpdater.run releases wait_lock although _ParamUpdater.close() (disconnected) may have
+                       force-released it in between: RuntimeError, the updater thread dies
      "dispStalePk"     the dispatcher handles a packet it took from a driver object that has been replaced meanwhile
      "staleFetcher"    a TocFetcher of a failed attempt stays registered: next attempt fires connected twice
      "openReread"      open_link stores the driver in self.link and reads self.link again to test it
@@ -386,7 +388,9 @@ UpdStep(t, f, ch) ==
       [] f.pc = "u_rl"   -> IF g.link = 0 THEN R(g, Goto(r.s, "u_wrel"), <<>>, {})
                             ELSE R([g EXCEPT !.lockPat = f.a],
                                    Append(SetTop(r.s, F("upd", "u_get", 0, 0)), F("send", "s_acq", f.a, 1)), <<>>, {})
-      [] f.pc = "u_wrel" -> R([g EXCEPT !.waitLock = FALSE], SetTop(r.s, F("upd", "u_get", 0, 0)), <<>>, {})
+      [] f.pc = "u_wrel" -> IF ~g.waitLock /\ Has("updDoubleRelease")
+                            THEN Raise(t, r)         \* RuntimeError: release unlocked lock (close() released it meanwhile)
+                            ELSE R([g EXCEPT !.waitLock = FALSE], SetTop(r.s, F("upd", "u_get", 0, 0)), <<>>, {})
 
 \* --- Latency._ping_thread ------------------------------------------------------------------------------
 PingStep(t, f, ch) ==
@@ -572,8 +576,14 @@ QPending == LET S == {t \in Users : stk[t] # <<>>}
 QRecord == [threads |-> QThreads, pending |-> QPending,
             state |-> IF g.state = "DISC" THEN 0 ELSE 1,
             disp_alive |-> IF "disp" \in g.dead THEN 0 ELSE 1]
-Spurious == \E a \in 0..NAtt : \/ Pr!Count(words[a], "disconnected") > nstim[a].close + nstim[a].fail
-                               \/ Pr!Count(words[a], "lost") > nstim[a].fail
+Spurious == \* over the whole history (a slow close_link may deliver its disconnected with the next attempt's URI)
+    LET RECURSIVE Sum(_, _)
+        Sum(f, S) == IF S = {} THEN 0 ELSE LET x == CHOOSE x \in S : TRUE IN f[x] + Sum(f, S \ {x})
+        nd == [a \in 0..NAtt |-> Pr!Count(words[a], "disconnected")]
+        nl == [a \in 0..NAtt |-> Pr!Count(words[a], "lost")]
+        nc == [a \in 0..NAtt |-> nstim[a].close + nstim[a].fail]
+        nf == [a \in 0..NAtt |-> nstim[a].fail]
+    IN Sum(nd, 0..NAtt) > Sum(nc, 0..NAtt) \/ Sum(nl, 0..NAtt) > Sum(nf, 0..NAtt)
 
 \* ----------------------------------------------------------------------------------------------
 Next == \/ \E t \in Threads, ch \in Choices : Step(t, ch)
@@ -584,9 +594,15 @@ Spec == Init /\ [][Next]_vars
 \* callback grammar, facts, per-call windows: the first failing clause of the history
 HistoryOK == viol = "ok"
 \* at the virtual horizon: no thread dead / deadlocked, blocking wrapper calls returned, DISCONNECTED
-QuietOK == PreQuiet => (Pr!QuietClause(QRecord) = "ok" /\ ~Spurious)
+LastStim == CurAtt >= 1 /\ nstim[CurAtt].close + nstim[CurAtt].fail > 0
+QuietOK == PreQuiet => (Pr!QuietClause(QRecord, LastStim) = "ok" /\ ~Spurious)
 \* the same object connects again
 ReconnectOK == PostQuiet => Pr!EpilogueClause(IF Pr!Has(words[NAtt], "connected") THEN 1 ELSE 0) = "ok"
 NoThreadDies == g.dead = {}
+\* search target (not a clause of C02; used to obtain a schedule that is then run against the real code and judged by
+\* the monitor): a thread joins the ping thread while it holds _send_lock and the ping thread waits for that lock
+NoJoinUnderSendLock ==
+    \A t \in Threads : ~(/\ stk[t] # <<>> /\ Top(stk[t]).pc = "f_join" /\ g.lock = t
+                         /\ stk["ping"] # <<>> /\ Top(stk["ping"]).pc = "s_acq")
 TypeOK == g.state \in {"DISC", "INIT", "CONN"} /\ g.link \in 0..NAtt /\ g.lock \in Threads \cup {"free"}
 =============================================================================
